@@ -12,6 +12,45 @@ import os
 from typing import Dict, List, Optional, Tuple, Any, Iterator
 
 
+class _Desugar(ast.NodeTransformer):
+    """Semantics-preserving desugaring applied to every function body at load time so that the CFG
+    decomposes the test of a conditional expression into path facts:
+        return A if T else B      ->  if T: return A  else: return B
+        x = A if T else B         ->  if T: x = A     else: x = B     (single plain target)"""
+
+    def _loc(self, new: ast.AST, old: ast.AST) -> ast.AST:
+        ast.copy_location(new, old)
+        ast.fix_missing_locations(new)
+        return new
+
+    def visit_Return(self, n: ast.Return) -> ast.AST:
+        if isinstance(n.value, ast.IfExp):
+            v = n.value
+            a = self.visit_Return(ast.copy_location(ast.Return(value=v.body), v.body))
+            b = self.visit_Return(ast.copy_location(ast.Return(value=v.orelse), v.orelse))
+            return self._loc(ast.If(test=v.test, body=[a] if not isinstance(a, list) else a, orelse=[b] if not isinstance(b, list) else b), n)
+        return n
+
+    def visit_Assign(self, n: ast.Assign) -> ast.AST:
+        if isinstance(n.value, ast.IfExp) and len(n.targets) == 1 and isinstance(n.targets[0], (ast.Name, ast.Attribute, ast.Subscript)):
+            v = n.value
+            a = self.visit_Assign(ast.copy_location(ast.Assign(targets=n.targets, value=v.body, type_comment=None), v.body))
+            b = self.visit_Assign(ast.copy_location(ast.Assign(targets=n.targets, value=v.orelse, type_comment=None), v.orelse))
+            return self._loc(ast.If(test=v.test, body=[a], orelse=[b]), n)
+        return n
+
+    def visit_AnnAssign(self, n: ast.AnnAssign) -> ast.AST:
+        if n.value is not None and isinstance(n.value, ast.IfExp) and isinstance(n.target, (ast.Name, ast.Attribute)):
+            v = n.value
+            a = self.visit_Assign(ast.copy_location(ast.Assign(targets=[n.target], value=v.body, type_comment=None), v.body))
+            b = self.visit_Assign(ast.copy_location(ast.Assign(targets=[n.target], value=v.orelse, type_comment=None), v.orelse))
+            return self._loc(ast.If(test=v.test, body=[a], orelse=[b]), n)
+        return n
+
+    def visit_Lambda(self, n: ast.Lambda) -> ast.AST:
+        return n
+
+
 class AnalysisError(Exception):
     """The analysis itself could not be carried out (missing anchor, unparseable file,
     construct outside the enumerated idioms).  Reported as ANALYSIS-ERROR / exit 2."""
@@ -132,6 +171,7 @@ class Program:
                     with open(path, 'r', encoding='utf-8') as f:
                         src = f.read()
                     tree = ast.parse(src, filename=path)
+                    tree = ast.fix_missing_locations(_Desugar().visit(tree))
                 except (SyntaxError, UnicodeDecodeError, OSError) as e:
                     raise AnalysisError('cannot parse %s: %s' % (rel, e))
                 self.modules[name] = Module(name, path, rel, src, tree, is_pkg)
